@@ -42,6 +42,12 @@ def check(ctx):
         ctx.violation("full-size run %s (%s, slice %s x %s): %s" % (f["run"], f["class"], f["slice"], f["slices"], f["error"]), f, tag="full")
     n, bad, first = rows_run(ctx, "MatcherRows", rows, "MatcherRows")
     ctx.cov["matcher_rows"] = {"runs": rj["runs"], "runs_with_match": rj["runs_with_match"], "rows_checked": n, "bad": bad, "full_size_runs": rj["full_size_runs"]}
+    dm = re.search(r'<<\s*"DRIFT",\s*(\d+)\s*>>', ctx.last_rows_out)
+    drift = int(dm.group(1)) if dm else -1
+    ctx.cov["matcher_rows"]["drifted_rows"] = drift
+    if drift:
+        ctx.notes.append("drift (not a violation): %d runs report true in-window matches into data the as-built eviction model no longer retains, "
+                         "or advertise a different window than slices * slice" % drift)
     if bad:
         ctx.violation("%d of %d match finder runs report a sequence that is not an enabled step of the specification, first: %s" % (bad, n, first),
                       {"rows": rows, "first": first}, tag="rows")
